@@ -21,6 +21,8 @@ type replayResult struct {
 	Observed string
 	Verdict  string
 	Input    string
+	// what `run --replay` needs to run the same test again on the current tree
+	Source, Hints, Pos, KindMsg, PkgRel string
 }
 
 // targetExpr: Go expression (inside the function's package) denoting the function.
@@ -418,7 +420,8 @@ func replayOnRealCode(v *Verifier, vi *violation, q *Query, scratch string, seed
 	cmd.Stderr = &out
 	cmd.Run()
 	res := &replayResult{Test: "TestVerifReplay (generated; reflect-driven inputs seeded by the solver model, then a deterministic corpus) against " + targetExpr(fnKey(fn), pkgPath),
-		Cmd: "go test -tags verif -overlay <ov.json> -vet=off -timeout 60s -count=1 -run ^TestVerifReplay$ " + pkgPath}
+		Cmd: "go test -tags verif -overlay <ov.json> -vet=off -timeout 60s -count=1 -run ^TestVerifReplay$ " + pkgPath,
+		Source: src, Hints: string(hints), Pos: pos, KindMsg: kindMsg, PkgRel: rel}
 	text := out.String()
 	for _, ln := range strings.Split(text, "\n") {
 		if strings.HasPrefix(ln, "VERIF-REPLAY-CONFIRMED") {
@@ -456,4 +459,73 @@ func acceptableParams(sig *types.Signature) bool {
 		walk(sig.Params().At(i).Type(), 0)
 	}
 	return !bad
+}
+
+// RunReplayFile re-executes a replay file written by a failed check against the CURRENT /repo:
+// the generated in-package test when the file carries one (exit 1 when the failure reproduces),
+// otherwise the obligation's unit is verified again and the obligation's status reported
+// (exit 1 while it is still undischarged).
+func RunReplayFile(path string) int {
+	data, err := os.ReadFile(path)
+	if err != nil {
+		fmt.Println("replay:", err)
+		return 2
+	}
+	var rep map[string]interface{}
+	if err := json.Unmarshal(data, &rep); err != nil {
+		fmt.Println("replay:", err)
+		return 2
+	}
+	str := func(k string) string { s, _ := rep[k].(string); return s }
+	fmt.Printf("replay of %s\n  property %s, function %s\n  obligation: %s\n  recorded verdict: %s (solver %s: %s)\n",
+		str("obligation"), str("property"), str("function"), str("description"), str("verdict"), str("solver"), str("solver_result"))
+	if src := str("go_test_source"); src != "" {
+		scratch, _ := os.MkdirTemp("", "govc-replay")
+		defer os.RemoveAll(scratch)
+		pkgDir := filepath.Join("/repo", str("pkg_rel"))
+		testFile := filepath.Join(scratch, "replay_test.go")
+		os.WriteFile(testFile, []byte(src), 0o644)
+		ov, _ := json.Marshal(map[string]map[string]string{"Replace": {filepath.Join(pkgDir, "zz_verif_replay_test.go"): testFile}})
+		ovFile := filepath.Join(scratch, "ov.json")
+		os.WriteFile(ovFile, ov, 0o644)
+		ctx, cancel := context.WithTimeout(context.Background(), 120*time.Second)
+		defer cancel()
+		cmd := exec.CommandContext(ctx, "go", "test", "-tags", "verif", "-overlay", ovFile, "-vet=off", "-timeout", "60s", "-count=1", "-v", "-run", "^TestVerifReplay$", ".")
+		cmd.Dir = pkgDir
+		cmd.Env = append(envNoNet(), "GOFLAGS=-mod=mod", "VERIF_HINTS="+str("hints"), "VERIF_POS="+str("pos"), "VERIF_KIND="+str("kind_msg"))
+		out, _ := cmd.CombinedOutput()
+		for _, ln := range strings.Split(string(out), "\n") {
+			if strings.HasPrefix(ln, "VERIF-REPLAY-CONFIRMED") {
+				fmt.Println("  on the current tree:", ln)
+				return 1
+			}
+		}
+		fmt.Println("  on the current tree: the recorded input class no longer fails the real code")
+	}
+	key := str("function")
+	v, err := Load("/repo", "./...")
+	if err != nil {
+		fmt.Println("replay:", err)
+		return 2
+	}
+	fn := v.FuncByKey(key)
+	if fn == nil {
+		fmt.Println("  function no longer exists in /repo")
+		return 1
+	}
+	dir, _ := os.MkdirTemp("", "govc")
+	defer os.RemoveAll(dir)
+	so := &SolveOpts{Dir: dir, Timeout: 30 * time.Second, FirstTry: 2 * time.Second, Workers: 16, WantModel: true}
+	res := v.VerifyFunc(fn, UnitOpts{UseCands: true, WantTerm: strings.Contains(str("obligation"), "#term.")}, so)
+	for _, o := range res.Obligations {
+		if o.Name == str("obligation") {
+			fmt.Printf("  on the current tree the obligation is: %s\n", o.Status())
+			if o.Status() == "unsat" {
+				return 0
+			}
+			return 1
+		}
+	}
+	fmt.Println("  the obligation is no longer generated for this function (contract or code changed)")
+	return 0
 }
